@@ -247,6 +247,22 @@ def caller_ok(ctx: "Ctx", f: FuncInfo, allowed: Callable[[FuncInfo], bool], _see
     return all(caller_ok(ctx, s.caller, allowed, seen) for s in sites)
 
 
+def _foreign_order_field(ctx: "Ctx", f: FuncInfo, msg: str) -> Optional[str]:
+    """the comparator of Order reads a constructor field of the order that is not a priority key
+    (agent_id, market_id, volume, ttl, or a new parameter): returns its name"""
+    if f is None or f.cls is None or f.cls.name != "Order":
+        return None
+    import re as _re
+
+    m = _re.search(r"atom (self|other)\.([A-Za-z_][A-Za-z_0-9]*) is not part", msg)
+    if not m:
+        return None
+    init = ctx.program.cls("Order").methods.get("__init__")
+    params = set(init.params) if init is not None else set()
+    keys_ = {"kind", "is_buy", "price", "placed_at", "order_id", "self"}
+    return f"{m.group(1)}.{m.group(2)}" if m.group(2) in params - keys_ else None
+
+
 def nonempty_decision(p: Path, seq: Term) -> Optional[bool]:
     """polarity of the path's decision `seq is non-empty` (len(seq) > 0, len(seq) == 0, truthiness)"""
     seq = strip_ver(seq)
@@ -541,6 +557,9 @@ def table_check_cases(
             try:
                 ok = all(bool(w.eval(t)) == pol for t, pol in model)
             except Unrecognised as ex:
+                fa = _foreign_order_field(ctx, f, str(ex))
+                if fa is not None:
+                    return ctx.violated(f, node, construct, "the ranking of two orders depends on kind, side, price, acceptance time and id only", f"it also depends on {fa}, which is no priority key: two orders equal in all keys are ranked by it, orders differing in a key can be ranked against it")
                 return ctx.unrec(f, node, construct, f"path condition outside the finite model: {ex}")
             if not ok:
                 continue
@@ -548,6 +567,9 @@ def table_check_cases(
             try:
                 got = c.outcome(w)
             except Unrecognised as ex:
+                fa = _foreign_order_field(ctx, f, str(ex))
+                if fa is not None:
+                    return ctx.violated(f, node, construct, "the ranking of two orders depends on kind, side, price, acceptance time and id only", f"it also depends on {fa}, which is no priority key: two orders equal in all keys are ranked by it, orders differing in a key can be ranked against it")
                 return ctx.unrec(f, node, construct, f"outcome outside the finite model: {ex}")
             if got != want:
                 nmis += 1
